@@ -1759,7 +1759,7 @@ class Gen:
                             die("tuple_to_option on %s" % tshow(ty))
                         return "(Core.tuple_to_option %s)" % t, ("opt", ty[1][0]), False
                     return self.seq(args, env, bt)
-                if segs == ["ExpType", "try_from"] and len(args) == 1:
+                if segs[-2:] == ["ExpType", "try_from"] and segs[:-2] in ([], ["crate"]) and len(args) == 1:
                     # u32::try_from(x) for a primitive integer x: Ok exactly when 0 <= x <= u32::MAX (a Result, translated as an option)
                     def btf(vs):
                         if vs[0][1] in ("U", "I"):
@@ -2370,17 +2370,19 @@ def main():
     out.append("(* ---- %s: the impls produced by %s inside impls! ---- *)" % (path, ", ".join(m_ + "!" for m_ in MACROS17)))
     expect = expect17()
     for S in "UI":
-        alias = {}
+        alias, sel = {}, []
         for f in fns:
             if f[0] in byvalue:
                 continue
             an = auto_name(f[0], S)
             if an is None or an not in expect or an in alias.values():
-                failed["%s (Self = %s)" % (f[0], S)] = "an impl in the expansion of impls! that Proofs/GlueTieC17.v has no lemma for"
+                failed["%s (Self = %s)" % (f[0], S)] = ("an impl in the expansion of impls! that Proofs/GlueTieC17.v has no lemma for"
+                                                        if an is None or an not in expect else "produced twice by the expansion of impls!")
                 forced["%s (Self = %s)" % (f[0], S)] = "C17"
                 continue
             alias[f[0]] = an
-        emit("%s impls!" % path, S, fns, alias)
+            sel.append(f)
+        emit("%s impls!" % path, S, sel, alias)
         for an in expect:
             if an not in alias.values():
                 CUR[0] = "%s impls! (%s_%s)" % (path, S, an)
